@@ -111,6 +111,26 @@ theorem C01_path_same_command {t : TTree} {c k : Nat} {path : List Str} (hp : Pa
   rw [find_path hp hne (fuel + 1) ws]
   exact find_stays t (fuel + 1) k ws hnc
 
+/-- **C01, flag-value slot, behind a path of sub-command names**: cobra dispatches `path ++ ws ++ [v]` to the command `k`
+    the path leads to and hands it `ws ++ [v]`; if the traverse model completes the value of flag `name` there, `k`'s parser
+    accepts those words and assigns `v` to that flag. -/
+theorem C01_flag_value_lands_after_path {t : TTree} {c k : Nat} {cs : TCmd} {path : List Str} (hp : Path t c path k)
+    (hne : PathWordsNonEmpty path) (h : Stay t k cs) (hi : cs.interspersed = true)
+    (hn : NamesOk (flagsAt t (t.size + 1) k)) (fuel : Nat) (ws : List Str) (hnc : NoChild t k ws) (w name : Str)
+    (hs : traverseSlot t (fuel + 1 + path.length) c (path ++ ws) w = .flagValue k name) :
+    ∀ v, childNamed t k v = none → (∀ f ∈ flagsAt t (t.size + 1) k, f.name = name → Pflag.valueOk f v = true) →
+      Cobra.find t (fuel + 1 + path.length) c (path ++ (ws ++ [v])) = (k, ws ++ [v]) ∧
+      ∃ p', Pflag.parse (flagsAt t (t.size + 1) k) true (ws ++ [v]) = .ok p' ∧ p'.sets.getLast? = some (name, v) := by
+  intro v hv hok
+  rw [traverseSlot_path hp] at hs
+  refine ⟨?_, C01_flag_value_lands h hi hn fuel ws hnc w name hs v hok⟩
+  rw [find_path hp hne (fuel + 1) (ws ++ [v])]
+  apply find_stays
+  intro x hx
+  rcases List.mem_append.mp hx with hx | hx
+  · exact hnc x hx
+  · simp at hx; rw [hx]; exact hv
+
 /-- **C07, sub-command names**: a name (or alias) of a child of the command a path of names leads to, typed there, is
     dispatched by cobra to that very child with nothing left over - so are the words that follow it, handed on unchanged
     as long as none of them names a grandchild -/
